@@ -441,6 +441,12 @@ def run_feature_dispatch(prog, rep, multi):
             nres += 1
             td = [l for l in log if l[0] == 'taggedData']
             views = [l for l in log if l[0] == 'new nix::DataView' and len(l) == 4]
+            if multi and kind != 'Tagged':
+                # an index beyond the number of positions is refused whatever the feature array looks like (tagged features: refused inside taggedData)
+                bound = [(k, v) for k, v in assign.items() if k[0] == 'cmp' and 'max_element' in repr(k) and 'position_indices' in repr(k) and "'positions'" in repr(k)]
+                inb = [v for k, v in bound if (k[1] == '<' and 'max_element' in repr(k[2]) and v) or (k[1] == '<' and 'max_element' in repr(k[3]) and not v and False)]
+                if not bound or not (bound[0][1] is True and bound[0][0][1] == '<' and 'max_element' in repr(bound[0][0][2])):
+                    probs.append('%s feature data is returned without establishing max(position indices) < number of positions: an index beyond the positions yields data when the feature array has more rows' % kind)
             stores = [l for l in log if l[0] == 'store']
             if kind == 'Tagged':
                 if not td:
